@@ -378,7 +378,8 @@ def match_template(
 
         return ()
 
-    if node == template:
+    # 1 == True == 1.0, but they are different pieces of code
+    if type(node) is type(template) and node == template:
         return (node,)
 
     return ()
